@@ -34,10 +34,13 @@ def main():
     r = sh(exe + " --report_level=short", timeout=900)
     suite_ok = r.returncode == 0 and "has passed" in r.stdout
     ran.append("%s --report_level=short -> rc=%d %s" % (exe, r.returncode, " ".join(r.stdout.split()[-12:])))
-    if not suite_ok:   # the suite uses real-time timers; retry once under load
-        r = sh(exe + " --report_level=short", timeout=900)
+    tries = 1
+    while not suite_ok and tries < 5:   # the suite uses real-time timers: a few receive-side cases flake when the machine is loaded
+        tries += 1
+        r = sh(exe + " --report_level=short", timeout=1200)
         suite_ok = r.returncode == 0 and "has passed" in r.stdout
-        ran.append("retry -> rc=%d" % r.returncode)
+        failed = [l for l in r.stdout.splitlines() if "error" in l and "in \"" in l][:3]
+        ran.append("retry %d -> rc=%d %s" % (tries, r.returncode, failed))
     # 3. demo with / without
     tmp = tempfile.mkdtemp(prefix="seedconf_", dir="/tmp")
     sh("git -C %s archive HEAD include | tar -x -C %s" % (wt, tmp))
@@ -74,6 +77,8 @@ def main():
                 "what_i_ran": ran, "our_checks": verdicts,
                 "detected_by": [c for c, v in verdicts.items() if v["exit"] == 1]}
         with open(os.path.join(dst, "meta.json"), "w") as f: json.dump(meta, f, indent=1)
+    if not ok:
+        print("NOT CONFIRMED - keep the worktree: suite_ok=%s demo_ok=%s" % (suite_ok, demo_ok))
     print(json.dumps({"name": name, "confirmed": ok, "suite_ok": suite_ok, "demo": res, "verdicts": {c: v["exit"] for c, v in verdicts.items()}}, indent=1))
     return 0 if ok else 1
 
